@@ -26,7 +26,7 @@ structure Prog where
   reads : List Ty
   guard : Option Guard
   fields : List Expr
-  deriving Repr, Inhabited
+  deriving Repr, Inhabited, DecidableEq
 
 def castInt (t : Ty) (v : Int) : Int :=
   let m : Int := (2 ^ (8 * t.width) : Nat)
